@@ -174,3 +174,281 @@ pub fn module_sees_importer() -> Vec<(String, String)> {
     }
     out
 }
+
+// ---------------------------------------------------------------------------------------------
+// families added after the ninth round
+
+/// every class of value as the condition of each conditional construct, as a sequence the construct sees one after
+/// the other (REPEAT UNTIL re-tests it): FALSE, 0, -0 and NULL are false, everything else is true
+pub fn condition_value_family() -> Vec<String> {
+    let falsy = ["FALSE", "0", "-0", "NULL", "0 AND 5", "NULL OR 0", "1 - 1"];
+    let truthy = ["TRUE", "1", "-1", "0.5", "\"\"", "\"s\"", "[]", "[0]", "NAN", "INF", "0 OR \"x\"", "NOT 0"];
+    let mut out = vec![];
+    let pre = format!("INF <- 1{}\nNAN <- INF - INF\n", "0".repeat(309));
+    for f1 in falsy {
+        for f2 in falsy {
+            for t in truthy {
+                // the loop runs while the condition is false in the language's sense, and stops at the first true value
+                out.push(format!("{pre}vals <- [{f1}, {f2}, {t}, FALSE]\nk <- 1\nREPEAT UNTIL (vals[k]) {{\nDISPLAY(k)\nk <- k + 1\n}}\nDISPLAY(\"stopped at\")\nDISPLAY(k)\n"));
+            }
+        }
+    }
+    for v in falsy.iter().chain(truthy.iter()) {
+        out.push(format!("{pre}c <- {v}\nIF (c) {{\nDISPLAY(\"then\")\n}} ELSE {{\nDISPLAY(\"else\")\n}}\nIF (c) DISPLAY(\"then, no braces\")\nDISPLAY(NOT c)\nDISPLAY(c AND \"right\")\nDISPLAY(c OR \"right\")\nn <- 0\nREPEAT UNTIL (c OR n >= 2) {{\nn <- n + 1\n}}\nDISPLAY(n)\nIF (FALSE) {{\n}} ELSE IF (c) {{\nDISPLAY(\"else-if\")\n}}\n"));
+        // the condition written directly (a literal, a call, an assignment) and through a procedure
+        out.push(format!("{pre}PROCEDURE id(v) {{\nRETURN v\n}}\nn <- 0\nREPEAT UNTIL (id({v}) OR n >= 2) {{\nn <- n + 1\n}}\nDISPLAY(n)\nn <- 0\nREPEAT UNTIL (id({v})) {{\nn <- n + 1\nIF (n >= 3) BREAK\n}}\nDISPLAY(n)\nn <- 0\nREPEAT UNTIL (c <- {v}) {{\nn <- n + 1\nIF (n >= 3) BREAK\n}}\nDISPLAY(n)\n"));
+    }
+    out
+}
+
+/// procedures with an empty body (no statements, only blanks or a comment, an empty nested block), with and without
+/// parameters named like variables of the caller: the activation leaves nothing behind
+pub fn empty_body_family() -> Vec<String> {
+    let mut out = vec![];
+    for body in ["{\n}", "{ }", "{\n// nothing yet\n}", "{\n{\n}\n}", "{\n;\n}", "{\nIF (FALSE) {\n}\n}"] {
+        for (params, args) in [("()", "()"), ("(acc)", "(5)"), ("(n)", "(5)"), ("(acc, other)", "(5, [6])")] {
+            for caller_acc in ["acc <- [100, 200]", "acc <- 7", ""] {
+                out.push(format!("PROCEDURE todo{params} {body}\n{caller_acc}\nother <- \"kept\"\nDISPLAY(\"call\")\nr <- todo{args}\nDISPLAY(r)\nDISPLAY(other)\nDISPLAY(acc)\nDISPLAY(n)\n"));
+                out.push(format!("PROCEDURE todo{params} {body}\nPROCEDURE outer(other) {{\n{caller_acc}\ntodo{args}\nDISPLAY(todo{args})\nDISPLAY(other)\nDISPLAY(acc)\nRETURN other\n}}\nDISPLAY(outer(\"kept\"))\nDISPLAY(acc)\n"));
+                out.push(format!("PROCEDURE todo{params} {body}\n{caller_acc}\nother <- 0\nREPEAT 3 TIMES {{\ntodo{args}\nother <- other + 1\n}}\nDISPLAY(other)\nDISPLAY(acc)\n"));
+            }
+        }
+    }
+    out
+}
+
+/// a statement or an operand that changes the length of the list another part of the same construct addresses:
+/// `a[i] <- REMOVE(a, 1)`, `INSERT(a, i, REMOVE(a, 1))`, `a[grow(a)] <- v`, ... for every position around both lengths
+pub fn length_changing_operand_family() -> Vec<String> {
+    let pre = "PROCEDURE grow(l) {\nAPPEND(l, 99)\nRETURN 5\n}\nPROCEDURE shrink(l) {\nRETURN REMOVE(l, LENGTH(l))\n}\n";
+    let changers = ["REMOVE(a, 1)", "REMOVE(a, LENGTH(a))", "grow(a)", "shrink(b)", "grow(b)", "LENGTH(a <- [1])", "LENGTH(b <- [1, 2, 3, 4, 5])"];
+    let mut out = vec![];
+    for ch in changers {
+        for i in 1..=5 {
+            for form in ["a[I] <- C", "b[I] <- C", "INSERT(a, I, C)", "APPEND(a, C)\nDISPLAY(a[I])", "DISPLAY(a[I] + C)", "DISPLAY(C + a[I])", "a[C] <- I", "DISPLAY(REMOVE(a, I) + C)", "DISPLAY([a[I], C, a[I]])"] {
+                let st = form.replace('I', &i.to_string()).replace('C', ch);
+                out.push(format!("{pre}a <- [10, 20, 30]\nb <- a\nDISPLAY(\"start\")\n{st}\nDISPLAY(a)\nDISPLAY(b)\n"));
+            }
+        }
+    }
+    out
+}
+
+/// list `+` with every kind of left and right operand expression (a variable, the same in parentheses, an element, a
+/// call returning an existing list, an assignment, a logical expression, a literal, a concatenation): the result is a
+/// new list and both operands are unchanged
+pub fn concat_operand_kinds_family() -> Vec<String> {
+    let pre = "PROCEDURE same(l) {\nRETURN l\n}\nPROCEDURE pick(rows, i) {\nRETURN rows[i]\n}\n";
+    let operands = ["a", "(a)", "grid[1]", "same(a)", "pick(grid, 1)", "(c <- a)", "(a OR 0)", "(0 OR a)", "(a AND a)", "[7]", "a + []", "(a + [])", "((a))"];
+    let mut out = vec![];
+    for l in operands {
+        for r in operands {
+            out.push(format!("{pre}a <- [1, 2]\ngrid <- [a, [3]]\nc <- 0\nr <- {l} + {r}\nDISPLAY(r)\nDISPLAY(a)\nDISPLAY(grid)\nAPPEND(r, 9)\nDISPLAY(a)\nDISPLAY(grid)\nr2 <- {l} + {r} + {l}\nDISPLAY(r2)\nDISPLAY(a)\n"));
+        }
+    }
+    out
+}
+
+/// every native procedure that builds a list, called twice with the same arguments: the two results are different
+/// lists (changing one, reassigning the variable that holds one, leaves the other and any later result alone)
+pub fn native_list_freshness_family() -> Vec<String> {
+    let calls = [
+        ("STRING", "SPLIT(\"a,b\", \",\")"),
+        ("STRING", "SPLIT(\"\", \",\")"),
+        ("MAP", "MAP_KEYS(m, 0)"),
+        ("MAP", "MAP_VALUES(m, 0)"),
+        ("MAP", "MAP_KEYS(e, 0)"),
+        ("MAP", "MAP_VALUES(e, 0)"),
+        ("MAP", "MAP_KEYS(MAP(), 0)"),
+        ("CORE", "[1] + [2]"),
+        ("CORE", "[] + []"),
+    ];
+    let mut out = vec![];
+    for (module, call) in calls {
+        let pre = format!("IMPORT MOD \"{module}\"\nIMPORT MOD \"MAP\"\nm <- MAP()\nMAP_INSERT(m, \"k\", \"v\")\ne <- MAP()\n");
+        for change in ["APPEND(r1, \"end\")", "r1 <- [\"other\", \"list\"]", "r1 <- r1 + [\"more\"]", "INSERT(r1, 1, \"front\")", "r1[1] <- \"changed\"", "keep <- r1\nAPPEND(keep, \"via alias\")"] {
+            out.push(format!("{pre}r1 <- {call}\nDISPLAY(LENGTH(r1))\n{change}\nr2 <- {call}\nDISPLAY(LENGTH(r2))\nDISPLAY(r2)\nAPPEND(r2, \"second\")\nr3 <- {call}\nDISPLAY(LENGTH(r3))\nDISPLAY(r3)\n"));
+            out.push(format!("{pre}n <- 0\nREPEAT 3 TIMES {{\nr1 <- {call}\nn <- n + LENGTH(r1)\n{change}\n}}\nDISPLAY(n)\nDISPLAY(LENGTH({call}))\n"));
+        }
+    }
+    out
+}
+
+/// MAP_INSERT over a key that already holds a value equal to the new one in some sense but distinguishable from it
+/// (0 / -0, two lists with equal contents, 1 / 1.0 as the control)
+pub fn map_equal_values_family() -> Vec<String> {
+    let mut out = vec![];
+    let pairs = [("0", "-0"), ("-0", "0"), ("[1]", "[1]"), ("[]", "[]"), ("1", "1.0"), ("\"a\"", "\"a\""), ("NULL", "NULL"), ("[0]", "[-0]"), ("TRUE", "1")];
+    for (v1, v2) in pairs {
+        for key in ["\"k\"", "1", "NULL"] {
+            let mut p = format!("IMPORT MOD \"MAP\"\nm <- MAP()\nfirst <- {v1}\nsecond <- {v2}\nDISPLAY(MAP_INSERT(m, {key}, first))\nDISPLAY(MAP_INSERT(m, {key}, second))\ng <- MAP_GET(m, {key})\nDISPLAY(g)\n");
+            if v1.contains('0') && !v1.starts_with('[') {
+                p.push_str("DISPLAY(1 / g)\nvs <- MAP_VALUES(m, 0)\nDISPLAY(1 / vs[1])\n");
+            }
+            if v1.starts_with('[') {
+                p.push_str(&format!("APPEND(first, \"to first\")\nDISPLAY(MAP_GET(m, {key}))\nAPPEND(second, \"to second\")\nDISPLAY(MAP_GET(m, {key}))\n"));
+            }
+            p.push_str("DISPLAY(MAP_VALUES(m, 0))\nDISPLAY(LENGTH(MAP_KEYS(m, 0)))\n");
+            out.push(p);
+        }
+    }
+    out
+}
+
+/// sequences of two and three IMPORT statements over one library module (whole, one name, another name, a list):
+/// after the sequence exactly the union of the requested names is callable
+pub fn import_sequences(names: &[(String, usize)], module: &str) -> Vec<(String, Vec<String>)> {
+    let mut out = vec![];
+    if names.len() < 3 {
+        return out;
+    }
+    let a = &names[0].0;
+    let b = &names[names.len() / 2].0;
+    let c = &names[names.len() - 1].0;
+    let forms: Vec<(String, Vec<String>)> = vec![
+        (format!("IMPORT MOD \"{module}\"\n"), names.iter().map(|(n, _)| n.clone()).collect()),
+        (format!("IMPORT \"{a}\" FROM MOD \"{module}\"\n"), vec![a.clone()]),
+        (format!("IMPORT \"{b}\" FROM MOD \"{module}\"\n"), vec![b.clone()]),
+        (format!("IMPORT [\"{a}\", \"{c}\"] FROM MOD \"{module}\"\n"), vec![a.clone(), c.clone()]),
+    ];
+    for (i1, v1) in &forms {
+        for (i2, v2) in &forms {
+            let mut vis = v1.clone();
+            vis.extend(v2.iter().cloned());
+            out.push((format!("{i1}{i2}"), vis.clone()));
+            out.push((format!("{i1}REPEAT 2 TIMES {{\n{i2}}}\n"), vis.clone()));
+            for (i3, v3) in forms.iter().take(2) {
+                let mut vis3 = vis.clone();
+                vis3.extend(v3.iter().cloned());
+                out.push((format!("{i1}{i2}{i3}"), vis3));
+            }
+        }
+    }
+    out
+}
+
+/// statements nested to a given depth and ELSE IF chains of a given length (valid programs, whatever the depth)
+pub fn deep_nesting_family() -> Vec<String> {
+    let mut out = vec![];
+    for depth in [1usize, 10, 31, 32, 33, 63, 64, 65, 100, 127, 128, 129, 200] {
+        for (open, close) in [("IF (TRUE) {\n", "}\n"), ("REPEAT 1 TIMES {\n", "}\n"), ("FOR EACH e IN [1] {\n", "}\n"), ("{\n", "}\n"), ("IF (FALSE) {\n} ELSE {\n", "}\n")] {
+            out.push(format!("{}DISPLAY(\"innermost\")\n{}DISPLAY(\"end\")\n", open.repeat(depth), close.repeat(depth)));
+        }
+        // without braces
+        out.push(format!("{}DISPLAY(\"innermost\")\nDISPLAY(\"end\")\n", "IF (TRUE) ".repeat(depth)));
+        // expressions
+        out.push(format!("DISPLAY({}1{})\n", "(".repeat(depth), ")".repeat(depth)));
+        out.push(format!("DISPLAY({}1{})\n", "[".repeat(depth), "]".repeat(depth)));
+        out.push(format!("DISPLAY({}1)\n", "- ".repeat(depth)));
+        out.push(format!("DISPLAY({}TRUE)\n", "NOT ".repeat(depth)));
+        out.push(format!("x <- [[1]]\nDISPLAY(LENGTH(x{}))\n", "[1]".repeat(2)));
+    }
+    for n in [1usize, 10, 63, 64, 65, 126, 127, 128, 129, 255, 256, 257, 300] {
+        let mut s = String::from("v <- 0\nIF (v == 1) {\nDISPLAY(\"first\")\n}");
+        for i in 0..n {
+            s.push_str(&format!(" ELSE IF (v == {}) {{\nDISPLAY({i})\n}}", if i + 1 == n { 0 } else { i + 2 }));
+        }
+        s.push_str(" ELSE {\nDISPLAY(\"none\")\n}\nDISPLAY(\"end\")\n");
+        out.push(s);
+        // a long flat program and a long expression
+        out.push(format!("x <- 0\n{}DISPLAY(x)\n", "x <- x + 1\n".repeat(n)));
+        out.push(format!("DISPLAY(0{})\n", " + 1".repeat(n)));
+    }
+    out
+}
+
+/// identifiers that begin with (or are a different casing of part of) a keyword, at the places where the lexer or the
+/// parser looks ahead: at the start of a line after each statement-ending token, after `}`, as operands
+pub fn keyword_prefixed_identifier_family(keywords: &[String]) -> Vec<String> {
+    let mut out = vec![];
+    let mut ids: Vec<String> = vec![];
+    for k in keywords {
+        for suf in ["where", "x", "_", "1", "S"] {
+            ids.push(format!("{k}{suf}"));
+            ids.push(format!("{}{suf}", k.to_lowercase()));
+        }
+    }
+    ids.sort();
+    ids.dedup();
+    for id in ids {
+        out.push(format!("x <- 5\n{id} <- 7\nDISPLAY(x + {id})\n"));
+        out.push(format!("IF (TRUE) {{\nx <- 1\n}}\n{id} <- 7\nDISPLAY({id})\nl <- [1]\n{id} <- l[1]\n{id} <- (2)\n{id} <- \"s\"\n{id} <- TRUE\n{id}2 <- {id}\n{id} <- NULL\nDISPLAY({id}2)\n"));
+        out.push(format!("PROCEDURE f() {{\nRETURN\n{id} <- 1\n}}\nREPEAT 1 TIMES {{\nCONTINUE\n{id} <- 2\n}}\nREPEAT 1 TIMES {{\nBREAK\n{id} <- 3\n}}\nDISPLAY(f())\n"));
+    }
+    out
+}
+
+/// the same call site run twice with the name bound to another procedure in between (a user procedure that shadows a
+/// library name with fewer parameters, then the IMPORT of the library module, and the other way round): each run
+/// checks its argument count against the procedure bound at that moment
+pub fn rebinding_between_runs_family(reg: &[(String, String, usize)]) -> Vec<String> {
+    let mut out = vec![];
+    let pre = format!("{}lst <- [1, 2]\nmp <- MAP()\n", crate::gen::exemplar_prelude());
+    for (module, name, arity) in reg {
+        if !["CORE", "MATH", "STRING", "MAP", "IO", "STYLE"].contains(&module.as_str()) || *arity == 0 {
+            continue;
+        }
+        if ["INPUT", "INPUT_PROMPT", "SLEEP", "RANDOM", "DISPLAY", "DISPLAY_NOLN", "MAP"].contains(&name.as_str()) {
+            continue;
+        }
+        for k in 0..*arity {
+            let params: Vec<String> = (0..k).map(|i| format!("p{i}")).collect();
+            let args: Vec<String> = (0..k).map(|i| crate::gen::plausible_arg(module, name, i).to_string()).collect();
+            let (params, args) = (params.join(", "), args.join(", "));
+            out.push(format!("{pre}PROCEDURE {name}({params}) {{\nRETURN \"user\"\n}}\nREPEAT 2 TIMES {{\nDISPLAY(\"call\")\nDISPLAY({name}({args}))\nIMPORT MOD \"{module}\"\n}}\nDISPLAY(\"end\")\n"));
+            out.push(format!("{pre}PROCEDURE {name}({params}) {{\nRETURN \"user\"\n}}\nPROCEDURE via() {{\nRETURN {name}({args})\n}}\nDISPLAY(via())\nIMPORT MOD \"{module}\"\nDISPLAY(\"imported\")\nDISPLAY(via())\nDISPLAY(\"end\")\n"));
+        }
+        // the library procedure first (a correct call), then a user procedure of that name with one parameter more
+        let full: Vec<String> = (0..*arity).map(|i| crate::gen::plausible_arg(module, name, i).to_string()).collect();
+        let more: Vec<String> = (0..*arity + 1).map(|i| format!("p{i}")).collect();
+        out.push(format!("{pre}IMPORT MOD \"{module}\"\nn <- 0\nREPEAT 2 TIMES {{\nn <- n + 1\nDISPLAY(\"call\")\nx <- {name}({})\nIF (n == 1) {{\nPROCEDURE {name}({}) {{\nRETURN \"user\"\n}}\n}}\n}}\nDISPLAY(\"end\")\n", full.join(", "), more.join(", ")));
+    }
+    out
+}
+
+/// every library procedure with, at each argument position, a value of each kind (several of them written with a comma
+/// inside: a list literal, a text, a nested call), the other arguments type-correct - plain and written with commas of
+/// their own: the diagnostic, if there is one, is labelled at the offending argument
+pub fn native_argument_label_family(reg: &[(String, String, usize)]) -> Vec<String> {
+    let mut out = vec![];
+    let pre = format!("{}IMPORT MOD \"MATH\"\nIMPORT MOD \"STRING\"\nIMPORT MOD \"IO\"\nIMPORT MOD \"STYLE\"\nlst <- [1, 2]\nmp <- MAP()\nPROCEDURE one(p) {{\nRETURN p\n}}\nDISPLAY(\"éarlier output\")\n", crate::gen::exemplar_prelude());
+    let bads = ["[1, 2]", "\"one, two\"", "NULL", "one([3, 4])", "0", "-1", "99", "NAN", "TRUE", "one(\"x\")", "mp", "0.5"];
+    for (module, name, arity) in reg {
+        if !["CORE", "MATH", "STRING", "MAP", "IO", "STYLE"].contains(&module.as_str()) || *arity == 0 {
+            continue;
+        }
+        if ["INPUT", "INPUT_PROMPT", "SLEEP", "RANDOM"].contains(&name.as_str()) {
+            continue;
+        }
+        for pos in 0..*arity {
+            for bad in bads {
+                for rich in [false, true] {
+                    let args: Vec<String> = (0..*arity)
+                        .map(|i| {
+                            if i == pos {
+                                bad.to_string()
+                            } else {
+                                let a = crate::gen::plausible_arg(module, name, i);
+                                if !rich {
+                                    a.to_string()
+                                } else if a == "lst" {
+                                    "[1, 2, 3]".to_string()
+                                } else if a == "\"a b\"" {
+                                    "\"a, b\"".to_string()
+                                } else if a == "1" {
+                                    "one(1)".to_string()
+                                } else {
+                                    a.to_string()
+                                }
+                            }
+                        })
+                        .collect();
+                    out.push(format!("{pre}r <- {name}({})\nDISPLAY(\"returned\")\n", args.join(", ")));
+                }
+            }
+        }
+    }
+    out.sort();
+    out.dedup();
+    out
+}
